@@ -835,11 +835,14 @@ class ChannelScenario(Scenario):
 
     ITEMS = ("I0", "I1", "I2")
 
-    def __init__(self, name, prequeued=0, nevents=2, nqueues=1):
+    def __init__(self, name, prequeued=0, nevents=2, nqueues=1, nchannels=1):
         self.model = py2ts.Model()
         ns = dict(vars(gb))
         classes = {"BaseGateway": gb.BaseGateway, "ChannelFactory": gb.ChannelFactory, "Channel": gb.Channel}
-        counts = {"BaseGateway": 1, "ChannelFactory": 1, "Channel": 1, "Event": nevents, "Lock": 2, "Set": 0, "List": 2, "Queue": nqueues, "Map": 2, "ExecModel": 1}
+        nevents = max(nevents, nchannels)
+        nqueues = max(nqueues, nchannels)
+        self.nchannels = nchannels
+        counts = {"BaseGateway": 1, "ChannelFactory": 1, "Channel": nchannels, "Event": nevents, "Lock": 2, "Set": 0, "List": 1 + nchannels, "Queue": nqueues, "Map": 2, "ExecModel": 1}
         sc = self
 
         def s_call_value(comp, ctx, fval, node, cur):
@@ -898,8 +901,16 @@ class ChannelScenario(Scenario):
             "F.Channel.gateway[0]": self.gw, "F.Channel.id[0]": INT0 + 1, "F.Channel._items[0]": U.classes["Queue"][0], "F.Channel._closed[0]": FALSE,
             "F.Channel._receiveclosed[0]": U.classes["Event"][0], "F.Channel._remoteerrors[0]": U.classes["List"][0], "F.Channel._strconfig[0]": U.const("<strconfig>"),
             "map.val[0][1]#0": self.ch,     # the channel is registered under id 1
-            "alloc.Event": 1, "alloc.List": 2, "alloc.Queue": 1, "alloc.Lock": 2, "alloc.Map": 2,
+            "alloc.Event": nchannels, "alloc.List": 1 + nchannels, "alloc.Queue": nchannels, "alloc.Lock": 2, "alloc.Map": 2,
         }
+        # further channels: ids 0 (second channel) - the map models keys 0..MAP_KEYS-1
+        self.chs = [self.ch]
+        for k in range(1, nchannels):
+            c = U.classes["Channel"][k]
+            self.chs.append(c)
+            init.update({f"F.Channel.gateway[{k}]": self.gw, f"F.Channel.id[{k}]": INT0 + 0, f"F.Channel._items[{k}]": U.classes["Queue"][k], f"F.Channel._closed[{k}]": FALSE,
+                         f"F.Channel._receiveclosed[{k}]": U.classes["Event"][k], f"F.Channel._remoteerrors[{k}]": U.classes["List"][1 + k],
+                         f"F.Channel._strconfig[{k}]": U.const("<strconfig>"), "map.val[0][0]#0": c})
         for k, v in init.items():
             self.model.vars[k] = v
         self.items = {n: U.const(("item", n)) for n in self.ITEMS}
@@ -914,6 +925,8 @@ class ChannelScenario(Scenario):
 
     def consts(self):
         d = {"gw": self.gw, "f": self.factory, "ch": self.ch, "CB": self.CB, "END": self.END}
+        for k, c in enumerate(self.chs):
+            d[f"ch{k}"] = c
         d.update(self.items)
         return d
 
@@ -989,6 +1002,11 @@ class ChannelScenario(Scenario):
             ch._items = _replay.QueueR(sched)
             for i in range(prequeued):
                 ch._items.q.append(self.ITEMS[i])
+            others = []
+            for k in range(1, self.nchannels):
+                c = gw._channelfactory.new(0)
+                c._items = _replay.QueueR(sched)
+                others.append(c)
 
             def cb(x):
                 seen.append("END" if x is END else x)
@@ -998,6 +1016,8 @@ class ChannelScenario(Scenario):
             state = {"loads": gb.loads_internal}
             gb.loads_internal = lambda data, *a, **k: data
             self._restore = lambda: setattr(gb, "loads_internal", state["loads"])
+            for k, c in enumerate(others):
+                rev[self.chs[k + 1]] = f"CHOBJ{k + 1}"
             d = {"GWOBJ": gw, "FOBJ": gw._channelfactory, "CHOBJ": ch, "CBOBJ": cb, "ENDOBJ": END, "EOFError": EOFError, "OSError": OSError, "RemoteError": gb.RemoteError}
             for n in self.ITEMS:
                 d[f"ITEM_{n}"] = n
@@ -1011,10 +1031,14 @@ class ChannelScenario(Scenario):
                 sched.sync("await")
 
             d["await_"] = await_
+            for k, c in enumerate(others):
+                d[f"CHOBJ{k + 1}"] = c
             return d
 
         programs = {}
         rev = {self.gw: "GWOBJ", self.factory: "FOBJ", self.ch: "CHOBJ", self.CB: "CBOBJ", self.END: "ENDOBJ"}
+        for k in range(1, self.nchannels):
+            rev[self.chs[k]] = f"CHOBJ{k}"
         for n, code in self.items.items():
             rev[code] = f"ITEM_{n}"
         for name, (src, args, _) in self.static.items():
